@@ -9,7 +9,7 @@ SPEC = {
              'inside (output, batch under construction, rest of the input) == leaves arrived, in order; emitted '
              'batch sizes; acceptance only when empty (judged on the previous event boundary); buffers and sinks count every leaf (level() == stored leaf parts, sink counters); every held '
              'batch\'s routing history is a suffix of each contained part\'s; a case is one model; non-trivial = '
-             'at least one output emitted by a batcher and a batch received somewhere; also: user-defined Batch subclasses, hand-made parts added to batches by callbacks, refused history removals, and the rule that a part\'s routing history never loses entries; pallets of boxes (batches of batches) taken apart in two steps, order and sizes judged on direct members, the history rule on every part at every depth'),
+             'at least one output emitted by a batcher and a batch received somewhere; also: user-defined Batch subclasses, hand-made parts added to batches by callbacks, refused history removals, and the rule that a part\'s routing history never loses entries; the rest of a lot scrapped by the inspection station during the batcher\'s hand-over; buffer levels as read inside receive callbacks; pallets of boxes (batches of batches) taken apart in two steps, order and sizes judged on direct members, the history rule on every part at every depth'),
     'floors': {'quick': {'batcher_outputs': 3500, 'batcher_checks': 30000, 'empty_batches_consumed': 20,
                          'batch_history_checks': 5000, 'pallets_nested_batch_history_checks': 300},
                'thorough': {'batcher_outputs': 100000, 'batcher_checks': 600000, 'empty_batches_consumed': 400,
